@@ -56,6 +56,19 @@ def load(path, want_fcsdata=True):
                     o['fcsdata'] = 'refused'
             return o
         warn = [str(x.message) for x in w]
+    # the loaded object is a snapshot: what happens to the file afterwards is none of its business.  The file is
+    # overwritten in place (same length, same inode) and restored once the object has been projected.
+    original = open(path, 'rb').read()
+    try:
+        with open(path, 'r+b') as fh:
+            fh.write(bytes((b ^ 0x5A) for b in original))
+        return _project(f, path, want_fcsdata, warn, original)
+    finally:
+        with open(path, 'r+b') as fh:
+            fh.write(original)
+
+
+def _project(f, path, want_fcsdata, warn, original):
     isint = f.text.get('$DATATYPE') == 'I'
     D = f.data.shape[1]
     try:
@@ -67,6 +80,8 @@ def load(path, want_fcsdata=True):
          'text': [[codes(k), codes(v)] for k, v in f.text.items()],
          'analysis': [[codes(k), codes(v)] for k, v in f.analysis.items()], 'warn': warn}
     if want_fcsdata:
+        with open(path, 'r+b') as fh:          # (the second load needs the file as it was)
+            fh.write(original)
         try:
             with warnings.catch_warnings():
                 warnings.simplefilter('ignore')
